@@ -11,8 +11,15 @@ Everything the ODE code is compared with comes out of a TLC run:
   projected on the number of S / I / R entries of the state vectors TLC printed.
 """
 import json
+import os
 import re
 from concurrent.futures import ThreadPoolExecutor
+
+# one BLAS thread per process: the check parallelises over scenarios with 16 forked workers, and
+# multi-threaded BLAS inside each of them only makes them spin on each other (measured: 2 s instead
+# of 20 ms per 729-state scenario on a loaded machine)
+for _v in ("OPENBLAS_NUM_THREADS", "OMP_NUM_THREADS", "MKL_NUM_THREADS"):
+    os.environ.setdefault(_v, "1")
 
 import numpy as np
 
@@ -128,20 +135,16 @@ class Generator(object):
         self.counts = np.array([[s.count("S"), s.count("I"), s.count("R")] for s in self.states], dtype=float)
         self._pows = {}
 
-    def powers(self, dt, steps):
-        """[I, E, E^2, ..., E^steps] with E = expm(Q dt)."""
-        k = (dt, steps)
-        if k not in self._pows:
+    def step_matrix(self, dt):
+        """E = expm(Q dt)"""
+        if dt not in self._pows:
             from scipy.linalg import expm
-            E = expm(self.Q * dt)
-            P = [np.eye(len(self.states))]
-            for _ in range(steps):
-                P.append(P[-1] @ E)
-            self._pows[k] = P
-        return self._pows[k]
+            self._pows[dt] = expm(self.Q * dt)
+        return self._pows[dt]
 
     def expected(self, p0, dt, steps):
-        """p0: {state: probability}.  Returns array (steps+1, 3): E[#S], E[#I], E[#R] at k*dt."""
+        """p0: {state: probability}.  Returns array (steps+1, 3): E[#S], E[#I], E[#R] at k*dt
+        (p(k dt) = p0 E^k, computed by repeated vector-matrix products)."""
         vec = np.zeros(len(self.states))
         const = np.zeros(3)
         for s, pr in p0.items():
@@ -151,7 +154,12 @@ class Generator(object):
                 # a state TLC printed no transition from or into: it is terminal and unreachable,
                 # the chain stays there for ever
                 const += pr * np.array([s.count("S"), s.count("I"), s.count("R")], dtype=float)
-        return np.array([vec @ P @ self.counts + const for P in self.powers(dt, steps)])
+        E = self.step_matrix(dt)
+        out = [vec @ self.counts + const]
+        for _ in range(steps):
+            vec = vec @ E
+            out.append(vec @ self.counts + const)
+        return np.array(out)
 
     def reachable(self, st0, sg, key):
         seen = {st0}
